@@ -11,12 +11,11 @@ components.
 namespace RgVerif.Gitignore
 open RgVerif RgVerif.Glob
 
-/-- `char::is_whitespace` (what `str::trim_right` removes) -/
-def isWs (c : Nat) : Bool :=
-  (9 ≤ c && c ≤ 13) || c == 32 || c == 0x85 || c == 0xA0 || c == 0x1680 ||
-  (0x2000 ≤ c && c ≤ 0x200A) || c == 0x2028 || c == 0x2029 || c == 0x202F || c == 0x205F || c == 0x3000
+/-- what `add_line` trims from the end of a line: `line.trim_end_matches(' ')`, the space only (since
+5031338; before that `str::trim_right`, i.e. every `char::is_whitespace`, so that `a<TAB>` meant `a`) -/
+def isWs (c : Nat) : Bool := c == 32
 
-/-- `str::trim_right` -/
+/-- `str::trim_end_matches(' ')` -/
 def trimRight (l : List Nat) : List Nat := (l.reverse.dropWhile isWs).reverse
 
 def startsWith (l pre : List Nat) : Bool := pre.isPrefixOf l
